@@ -465,7 +465,7 @@ class ConstEval:
         "frozenset": frozenset, "bytes": bytes, "chr": chr, "ord": ord, "min": min, "max": max, "abs": abs, "sorted": sorted,
         "pow": pow, "bool": bool, "zip": lambda *a: list(zip(*a)), "enumerate": lambda *a, **k: list(enumerate(*a, **k)),
         "reversed": lambda x: list(reversed(x)), "sum": sum, "any": any, "all": all, "divmod": divmod, "round": round, "repr": repr,
-        "hex": hex, "bin": bin, "format": format, "slice": slice,
+        "hex": hex, "bin": bin, "format": format, "slice": slice, "dict": dict,
     }
     PURE_METHODS = {"join", "format", "items", "keys", "values", "get", "upper", "lower", "encode", "decode", "zfill", "rjust", "ljust",
                     "replace", "split", "rsplit", "strip", "lstrip", "rstrip", "startswith", "endswith", "copy", "title", "capitalize",
@@ -473,6 +473,32 @@ class ConstEval:
 
     def _call(self, mod, node, env, local):
         fname = norm(node.func)
+        if fname in ("map", "filter") and len(node.args) >= 2 and not node.keywords and isinstance(node.args[0], (ast.Name, ast.Attribute)):
+            fcall = None
+            if isinstance(node.args[0], ast.Name):
+                fn_name = node.args[0].id
+                fref = (local or {}).get(fn_name) if local and fn_name in local else env.get(fn_name)
+                if fn_name in self.PURE and not isinstance(fref, Ref):
+                    fcall = self.PURE[fn_name]
+                elif isinstance(fref, Ref) and fref.kind == "function":
+                    fcall = lambda *a, _r=fref: self._apply(_r, list(a), {})  # noqa: E731
+            elif node.args[0].attr in self.PURE_METHODS:
+                # a bound method of a folded constant: map("{:03d}".format, ...)
+                recv0 = self.eval(mod, node.args[0].value, env, local)
+                if isinstance(recv0, (str, bytes)):
+                    fcall = getattr(recv0, node.args[0].attr)
+            seqs = [self.eval(mod, a_, env, local) for a_ in node.args[1:]]
+            if fcall is not None and not any(isinstance(x, Unknown) for x in seqs):
+                try:
+                    if fname == "map":
+                        res = [fcall(*xs) for xs in zip(*[list(q) for q in seqs])]
+                    else:
+                        res = [x for x in list(seqs[0]) if fcall(x)]
+                except Exception:
+                    return Unknown(f"call {fname} raises")
+                if any(isinstance(r, Unknown) for r in res):
+                    return Unknown(f"call {fname}")
+                return res
         args = []
         for a in node.args:
             if isinstance(a, ast.Starred):
@@ -634,14 +660,23 @@ class ConstEval:
                 it = self.eval(mod, st.iter, env, loc)
                 if isinstance(it, Unknown):
                     raise _Unfoldable(it.why)
-                for x in list(it):
-                    if isinstance(st.target, ast.Name):
-                        loc[st.target.id] = x
-                    elif isinstance(st.target, (ast.Tuple, ast.List)) and all(isinstance(t, ast.Name) for t in st.target.elts):
-                        for t, v in zip(st.target.elts, x):
-                            loc[t.id] = v
+                def bind_target(t, v):
+                    if isinstance(t, ast.Name):
+                        loc[t.id] = v
+                    elif isinstance(t, (ast.Tuple, ast.List)) and not any(isinstance(e_, ast.Starred) for e_ in t.elts):
+                        try:
+                            vs = list(v)
+                        except TypeError:
+                            raise _Unfoldable("for target: unpacking a non-iterable") from None
+                        if len(vs) != len(t.elts):
+                            raise _Unfoldable("for target: arity")
+                        for e_, x_ in zip(t.elts, vs):
+                            bind_target(e_, x_)
                     else:
                         raise _Unfoldable("for target")
+
+                for x in list(it):
+                    bind_target(st.target, x)
                     r = self._run_block(mod, st.body, env, loc, fuel)
                     if r:
                         return r
